@@ -451,6 +451,15 @@ func ruleLookupKeys(c *Ctx, rule string) {
 				})
 			}
 			walk(rs.Body, false)
+			// a search is not a pass over all elements: `for i, col := range list { if match(col) { found = i; break } }`
+			// stops at the first match by design (the loop body is that one if, which ends in the break)
+			if bad && len(rs.Body.List) == 1 {
+				if ifs, ok := rs.Body.List[0].(*ast.IfStmt); ok && ifs.Else == nil && len(ifs.Body.List) > 0 {
+					if br, ok := ifs.Body.List[len(ifs.Body.List)-1].(*ast.BranchStmt); ok && br.Tok == token.BREAK && br.Label == nil {
+						bad = false
+					}
+				}
+			}
 			// breaks nested in if statements directly in the loop body are found above; those inside inner switches are not
 			key = fn + "|select-list-loop#" + itoa(len(c.Obs))
 			c.Check(!bad, rule, fn+"|select-list-loop@"+exprKey(rs.Value), rs.Pos(), "the loop visits every select-list element", "a break leaves the loop over the select list: the elements after it are never resolved and silently read column 0")
